@@ -11,6 +11,8 @@
 //   T <round> <round> ...          one line per thread (C01/C02)
 //   prog ...                       C03/C04/C05 program description (see parse_*)
 #include <rapidcheck.h>
+#include <dirent.h>
+#include <poll.h>
 #include "../../vlib/vlib.h"
 #include "../../vlib/valloc.h"
 #include "vsched.h"
@@ -802,9 +804,46 @@ Outcome run_case_forked(const Case &c) {
   }
   close(pfd[1]);
   string out; char buf[4096]; ssize_t n;
-  while ((n = read(pfd[0], buf, sizeof buf)) > 0) out.append(buf, (size_t)n);
+  // The case normally finishes in milliseconds.  If nothing has been heard for 3 s, look at the child: when EVERY thread of it sleeps (state
+  // S) inside a futex wait, in two looks one second apart, nobody holds the scheduler's baton and nobody ever will - a library call blocked on
+  // something outside the scheduler's model, or a thread was lost: the finite program cannot finish.  A starved machine shows runnable
+  // threads (state R) instead and decides nothing.
+  auto all_parked = [&]() -> string {
+    string sig; char dn[64]; snprintf(dn, sizeof dn, "/proc/%d/task", (int)pid);
+    DIR *d = opendir(dn); if (!d) return "";
+    int nthreads = 0; bool ok = true;
+    while (struct dirent *e = readdir(d)) {
+      if (e->d_name[0] == '.') continue;
+      nthreads++;
+      char fn[128]; snprintf(fn, sizeof fn, "/proc/%d/task/%s/stat", (int)pid, e->d_name);
+      FILE *f = fopen(fn, "r"); char sb[512] = {0}; if (f) { size_t r = fread(sb, 1, sizeof sb - 1, f); (void)r; fclose(f); }
+      const char *rp = strrchr(sb, ')'); char state = rp && rp[1] == ' ' ? rp[2] : '?';
+      snprintf(fn, sizeof fn, "/proc/%d/task/%s/syscall", (int)pid, e->d_name);
+      f = fopen(fn, "r"); char sc[256] = {0}; if (f) { size_t r = fread(sc, 1, sizeof sc - 1, f); (void)r; fclose(f); }
+      if (state != 'S' || strncmp(sc, "202 ", 4) != 0) ok = false;
+      sig += string(e->d_name) + ":" + sc;
+    }
+    closedir(d);
+    return ok && nthreads >= 1 ? sig : "";
+  };
+  int quiet_ms = 0; string parked_sig; bool parked_verdict = false;
+  for (;;) {
+    struct pollfd pp = {pfd[0], POLLIN, 0};
+    int pr = poll(&pp, 1, 500);
+    if (pr > 0) { n = read(pfd[0], buf, sizeof buf); if (n <= 0) break; out.append(buf, (size_t)n); quiet_ms = 0; parked_sig.clear(); continue; }
+    quiet_ms += 500;
+    if (quiet_ms >= 3000 && quiet_ms % 1000 == 0) {
+      string sg = all_parked();
+      if (!sg.empty() && sg == parked_sig) { parked_verdict = true; kill(pid, SIGKILL); break; }
+      parked_sig = sg;
+    }
+  }
   close(pfd[0]);
   int st = 0; waitpid(pid, &st, 0);
+  if (parked_verdict) {
+    bool decided = false; for (auto &l : vl::split_lines(out)) if (l.rfind("RESULT ", 0) == 0) decided = true;
+    if (!decided) { o.klass = "all-threads-parked"; o.verdict = "every thread of the program sleeps in a futex wait and none holds the scheduler's baton (two looks one second apart): the finite program cannot finish - a library call blocks on something no other thread will provide, or a thread was lost"; return o; }
+  }
   if (getenv("VS_DEBUG")) fputs(out.c_str(), stderr);
   bool got = false;
   for (auto &l : vl::split_lines(out)) {
